@@ -166,6 +166,14 @@ def gen_scenario(rng, tier, knobs):
                     'tgt_name': rng.choice([ps['name'], 'sub/%s' % ps['name']]),
                     'tgt_schema': 'rel', 'src_abs': False, 'missing': False,
                     'pstaged': True}]
+    # the connection between one side and the proxy pubsubs is cut for a
+    # while: state updates and cancel requests are held (not lost) until it
+    # heals.  Drawn last.
+    if rng.random() < knobs.get('partition_prob', 0.15):
+        sc['ops'] = sorted(sc['ops'] + [[
+            round(rng.uniform(0.0, 3.0), 2), 'partition',
+            rng.choice(['client', 'pilot.0000']),
+            rng.choice([0.5, 2.0, 5.0])]], key=lambda o: o[0])
     return sc
 
 
@@ -374,7 +382,7 @@ def run(seed, sc, trace=None, tier='quick'):
             for i, t in enumerate(sc['tasks']):
                 tl.append((t['at'], 0, 'task', i))
             for j, op in enumerate(sc['ops']):
-                if op[1] == 'cancel':
+                if op[1] in ('cancel', 'partition'):
                     tl.append((op[0], 1, 'op', j))
             tl.sort()
             t0 = sim.now
@@ -413,6 +421,11 @@ def run(seed, sc, trace=None, tier='quick'):
                                   'spawn_error': t.get('spawn_error', False)}
                     st['uids'].append(uid)
                     batch.append((idx, rp.TaskDescription(d)))
+                elif sc['ops'][idx][1] == 'partition':
+                    flush()
+                    op = sc['ops'][idx]
+                    sim.fault('partition')
+                    net.partitions = {op[2]: sim.now + op[3]}
                 else:
                     flush()
                     op = sc['ops'][idx]
